@@ -57,8 +57,8 @@ Expected(e, pre) ==
   IF e.op = "ireq" THEN InterceptRequest(pre, MsgOf(e.req), cfg.M)
   ELSE InterceptResponse(pre, OptMsg(e.app), cfg.M)
 
-Exact(x, r) == /\ x.out = r.out /\ x.resp = r.resp /\ x.reqpay = r.reqpay
-               /\ (r.hasPost => SameEntry(x.st, r.post))
+SeenSame(x, r) == x.out = r.out /\ x.resp = r.resp /\ x.reqpay = r.reqpay
+Exact(x, r) == SeenSame(x, r) /\ (r.hasPost => SameEntry(x.st, r.post))
 
 (* ---- what the properties pin (4.21 of DESIGN.md) --------------------------------- *)
 ReplyBlock(r, num) == IF r.resp.some THEN FirstBlock(r.resp.v, num) ELSE None
@@ -189,7 +189,9 @@ C10FollowOk(e, pre, r, bsz) ==
 
 \* the client's Block2 preference of this exchange is what intercept_response must honour (C10):
 \* the remembered value is judged here, so that a wrong one is never adopted silently
-HintOk(e, x, r) == (e.op = "ireq" /\ r.hasPost /\ x.out.k = "ok" /\ r.out.k = "ok") => r.post.b2 = x.st.b2
+\* (after either entry point: intercept_response does not forget it either - a second reply to the same
+\* request, a notification say, must still honour it)
+HintOk(e, x, r) == (r.hasPost /\ x.out.k = "ok" /\ r.out.k = "ok") => r.post.b2 = x.st.b2
 
 \* C09: "its response carries the Block1 acknowledgement" - the acknowledgement intercept_request placed
 \* on the prepared reply is still there after intercept_response, also when the reply leaves in blocks
@@ -287,7 +289,12 @@ StepCall(e) ==
           ELSE /\ kfs' = kfs /\ UNCHANGED kftotal
                /\ IF OthersOk(e, k) THEN UNCHANGED bad
                   ELSE RejectEv({"C12", "C20"}, "state of another key changed, or an entry was kept/purged against the configured expiry")
-  ELSE LET wrong == { p \in WrongLiveness(k, e) \ pres : Exact(Expected(e, p), r) }
+  \* what the caller sees (outcome, reply, request payload) is exactly what a pre-state the expiry forbids
+  \* would produce, and what no admissible pre-state produces: state was used after its expiry, or lost
+  \* before it - wherever the implementation keeps it
+  ELSE LET wrong == { p \in WrongLiveness(k, e) \ pres :
+                        /\ SeenSame(Expected(e, p), r)
+                        /\ \A q \in pres : ~SeenSame(Expected(e, q), r) }
            p == CHOOSE p \in pres : TRUE
            x == Expected(e, p)
            v == UNION { Violated(e, q, Expected(e, q), r, Bsz(k)) : q \in pres }
